@@ -262,18 +262,19 @@ Definition ping (c : client) (inb : bytes) : ping_end * bytes (* written *) * by
 Record cquery := {
   cq_id : bytes ; cq_body : bytes ; cq_quota : bytes ; cq_inituser : bytes ;
   cq_settings : list (bytes * bytes * bool) ;       (* Key, Value, Important *)
-  cq_params : list (bytes * bytes) }.
+  cq_params : list (bytes * bytes) ;
+  cq_span : option span }.       (* trace.SpanContextFromContext(ctx) when it is valid: a traced caller context *)
 
 Definition cq_setting (s : bytes * bytes * bool) : setting :=
   {| s_key := fst (fst s) ; s_val := snd (fst s) ; s_imp := snd s ; s_cust := false ; s_obs := false |}.
 
-(* query.go sendQuery: the proto.Query it builds (compression disabled, no tracing span) *)
+(* query.go sendQuery: the proto.Query it builds (compression disabled; the span of the caller's context, if any) *)
 Definition mk_query (c : client) (q : cquery) : query :=
   {| q_id := cq_id q ;
      q_info := [FN (Z.to_N ClientQueryInitial); FStr (cq_inituser q); FStr (cq_id q); FStr (c_addr c);
                 FZ 0; FN (Z.to_N InterfaceTCP); FStr []; FStr []; FStr (c_name c);
                 FZ (c_major c); FZ (c_minor c); FZ (c_ver c);
-                FStr (cq_quota q); FZ 0; FZ (c_patch c); FSpan None; FB false; FZ 0; FZ 0] ;
+                FStr (cq_quota q); FZ 0; FZ (c_patch c); FSpan (cq_span q); FB false; FZ 0; FZ 0] ;
      q_settings := map cq_setting (cq_settings q) ;
      q_secret := [] ;
      q_stage := Z.to_N StageComplete ;
